@@ -942,6 +942,16 @@ def t_payload(rng, code):
 
 def t_padding(rng, code):
     n = rng.choice([1, 16, (1 << 61) - 1])
+    if code == 390:
+        # the padding is the FIRST field of its declaration, and the declaration before it
+        # (possibly with field-less declarations in between) ENDS with an array
+        prev = rng.choice([packet("Blob", [size_f("data", 8), array("data", width=8)]),
+                           struct("Blob", [scalar("q", 8), array("data", width=16, size=2)]),
+                           packet("Blob", [array("data", width=8)])])
+        mid = rng.sample([enum("En", 8, [tag_v("X", 0)]), custom_field("Cu", 8), checksum("Ck", 8)], rng.randrange(3))
+        kw = rng.choice([packet, struct])
+        return file(rng.choice(["little_endian", "big_endian"]),
+                    [prev] + mid + [kw("Frame", [padding(rng.choice([1, 4, 16])), scalar("tag", 8)])])
     k = rng.randrange(6)
     if k == 0:
         fs = [padding(n), array("x", width=8)]
@@ -1069,7 +1079,7 @@ TEMPLATES = {
     "E38": lambda r: t_size(r, 38), "E38after": lambda r: t_size(r, 380),
     "E32": lambda r: t_fixed(r, 32), "E32ok": lambda r: t_fixed(r, 320), "E33": lambda r: t_fixed(r, 33),
     "E34": lambda r: t_fixed(r, 34), "E34ok": lambda r: t_fixed(r, 340), "E35": lambda r: t_fixed(r, 35),
-    "E36": lambda r: t_payload(r, 36), "E37": lambda r: t_payload(r, 37), "E39": lambda r: t_padding(r, 39),
+    "E36": lambda r: t_payload(r, 36), "E37": lambda r: t_payload(r, 37), "E39": lambda r: t_padding(r, 39), "E39prev": lambda r: t_padding(r, 390),
     "E45": lambda r: t_optional(r, 45), "E45ok": lambda r: t_optional(r, 450), "E46": lambda r: t_optional(r, 46),
     "E47": lambda r: t_optional(r, 47), "E48": lambda r: t_optional(r, 48), "E49": lambda r: t_optional(r, 49),
     "E51": lambda r: t_offset(r, 51), "E52": lambda r: t_sizes(r, 52), "E53": lambda r: t_sizes(r, 53),
@@ -1563,7 +1573,10 @@ def corpus(seed, n):
     reps = 6 if n <= 2000 else 12
     for key in keys:
         for r in range(reps):
-            out.append((f"{key}#c{r}", TEMPLATES[key](random.Random(f"{seed}-{key}-{r}"))))
+            f = TEMPLATES[key](random.Random(f"{seed}-{key}-{r}"))
+            if r % 3 == 2:
+                f = with_prelude(f, random.Random(f"{seed}-{key}-{r}-p"))
+            out.append((f"{key}#c{r}", f))
     for i in range(max(0, n - len(out))):
         k = rng.random()
         if k < 0.22:
@@ -1581,6 +1594,36 @@ def corpus(seed, n):
             out.append((f"chaos{i}", chaos(rng)))
         else:
             out.append((f"enums{i}", chaos_enums(rng)))
+    return out
+
+
+def with_prelude(f, rng):
+    """the same description AFTER well-formed declarations that END in the constructs whose
+    presence legitimises something in the next field (an array before a padding, a payload,
+    a size field, a flag, an enum): per-declaration state that is not reset between
+    declarations would let the catalogued violation through.  Declared first, with names
+    of their own, and depended on by nothing, they stay first in the analyzer's order."""
+    pre = [
+        packet("Zq0", [scalar("zq0", 8), array("zq1", width=8)]),
+        struct("Zq1", [count_f("zq3", 8), array("zq3", width=16), padding(40)]),
+    ]
+    more = [
+        packet("Zq2", [size_f("_payload_", 8), payload()]),
+        packet("Zq3", [scalar("zq4", 1), reserved(7), scalar("zq5", 8, cond=constraint("zq4", 1))]),
+        enum("Zq4", 8, [tag_v("ZA", 1), tag_r("ZR", 4, 9, []), tag_o("ZO")]),
+        packet("Zq5", [elementsize_f("zq6", 8), count_f("zq6", 8), array("zq6", type_id="Zq1")]),
+    ]
+    k = rng.randrange(4)
+    chosen = [pre[rng.randrange(2)]] if k == 0 else ([more[rng.randrange(len(more))], pre[0]] if k == 1 else
+                                                        ([pre[1]] if k == 2 else [more[rng.randrange(3)]]))
+    if any(d.get("id") == "Zq1" for d in chosen) is False and any(d.get("id") == "Zq5" for d in chosen):
+        chosen = [pre[1]] + chosen
+    ids = {d.get("id") for d in f["declarations"]}
+    chosen = [d for d in chosen if d["id"] not in ids]
+    out = dict(f)
+    # the analyzer keeps the file order for declarations without forward references: make
+    # sure the prelude's LAST declaration is immediately followed by the catalogued ones
+    out["declarations"] = chosen + list(f["declarations"])
     return out
 
 
